@@ -16,7 +16,11 @@
 (* One recorded event (`LogitFit`) describes one call of fit followed by   *)
 (* predict, in integers only:                                              *)
 (*   n, p, k        rows, features, classes (k distinct labels)            *)
-(*   labels2[1..k]  the label values times two, ascending                  *)
+(*   labels2[1..k]  integer codes of the k distinct label values, ascending*)
+(*                  (twice the value when all labels are half-integers,    *)
+(*                  otherwise the rank 1..k: labels may be arbitrary       *)
+(*                  floats, e.g. one ulp apart or scaled by 2^200; the     *)
+(*                  exact values travel in labelBits / labelStr)           *)
 (*   yc[1..n]       class index (1..k) of every training row               *)
 (*   X[1..n][1..p]  features as integers, x = X / 2^xS   (exact)           *)
 (*   Q[1..m][1..p]  query rows (the training rows and some fresh ones)     *)
@@ -28,7 +32,9 @@
 (*   wFin           all coefficients and intercepts are finite numbers     *)
 (*   wOk            ... and below 2^15 after scaling (else coef, icept are *)
 (*                  empty and the event is not judged numerically)         *)
-(*   pred2[1..m]    predicted labels times two; predOk: all are integers   *)
+(*   pred2[1..m]    for every query row the code of the training label the *)
+(*                  prediction equals bit for bit, or a code that is no    *)
+(*                  label's; predOk: all predictions are finite            *)
 (*                                                                         *)
 (* Conventions about the returned model that the statement leaves          *)
 (* implicit and that are ASSUMED here (they are the documented meaning of  *)
@@ -66,7 +72,7 @@ Tup(f, n) == IF n = 0 THEN <<>> ELSE Append(Tup(f, n - 1), f[n])
 Rows(e) == IF e.k = 2 THEN 1 ELSE e.k          \* k': rows of coef / icept
 
 InputOK(e) ==      \* what the generator promises (anything else is a harness error)
-    /\ e.k \in 2..4 /\ e.p \in 1..6 /\ e.n \in 1..128
+    /\ e.k \in 2..4 /\ e.p \in 1..6 /\ e.n \in 1..600
     /\ Len(e.labels2) = e.k /\ \A c \in 1..(e.k - 1) : e.labels2[c] < e.labels2[c + 1]
     /\ Len(e.yc) = e.n /\ Len(e.X) = e.n
     /\ \A i \in 1..e.n : e.yc[i] \in 1..e.k /\ Len(e.X[i]) = e.p
@@ -74,6 +80,9 @@ InputOK(e) ==      \* what the generator promises (anything else is a harness er
     /\ \A i \in 1..Len(e.Q) : Len(e.Q[i]) = e.p
     /\ e.xS \in 0..12 /\ e.alphaS \in 0..10 /\ e.alphaNum \in 0..1024
     /\ \A i \in 1..e.n : \A j \in 1..e.p : Abs(e.X[i][j]) <= 4096
+    (* the sums over the rows stay within 32 bits: n * max|X| <= 128 * 4096 (long training *)
+    (* sets come with small features)                                                     *)
+    /\ \A i \in 1..e.n : \A j \in 1..e.p : Abs(e.X[i][j]) * e.n <= 524288
     /\ \A i \in 1..Len(e.Q) : \A j \in 1..e.p : Abs(e.Q[i][j]) <= 4096
 
 ShapeOK(e) ==      \* fit returned a model of the right shape, predict one label per query
@@ -171,7 +180,7 @@ EP(ez) == ez \div 4 + 1 + 2
 (*          gradient at the all-zero start (p = 1/k there), units 2^-xS    *)
 (*   F      sum_i -ln p_i[y_i] = sum_i ln S_i + (max z_i - z_i[y_i])       *)
 (*          units 2^-12;  TF its proved error; huge: some term alone       *)
-(*          exceeds 256 (more than any starting objective n ln k, n<=128)  *)
+(*          exceeds 1024, or the sum 244 000: more than any n ln k, n<=600 *)
 (* where xe_ij = X[i][j] for a feature and 2^xS (i.e. 1) for the intercept.*)
 (***************************************************************************)
 NFree(e) == IF e.k = 2 THEN 1 ELSE e.k
@@ -193,9 +202,10 @@ AccRow5(e, acc, x, y, zs, ez, mx, es, S, pr) ==
          T |-> Tup([t \in 1..L |-> acc.T[t] + EP(ez) * Abs(XE(e, x, TJ(e, t)))], L),
          N |-> Tup([t \in 1..L |-> acc.N[t]
                         + (1 - (IF y = TC(e, t) THEN e.k ELSE 0)) * XE(e, x, TJ(e, t))], L),
-         F |-> IF acc.huge \/ dz > 1048576 THEN 0 ELSE acc.F + Down(Ln15(S), 15, 12) + dz,
+         F |-> IF acc.huge \/ dz > 4194304 \/ acc.F > 1000000000 THEN acc.F
+               ELSE acc.F + Down(Ln15(S), 15, 12) + dz,
          TF |-> acc.TF + 2 * ez + 5,     \* 2 ez: -ln p_y is 2-Lipschitz in the scores; 5: ExpNeg, Ln15, floors
-         huge |-> (acc.huge \/ dz > 1048576)]
+         huge |-> (acc.huge \/ dz > 4194304 \/ acc.F > 1000000000)]
 AccRow4(e, acc, x, y, zs, ez, mx, es) == AccRow5(e, acc, x, y, zs, ez, mx, es, SumT(es, e.k), ProbT(es, e.k, SumT(es, e.k)))
 AccRow3(e, acc, x, y, zs, ez, mx) == AccRow4(e, acc, x, y, zs, ez, mx, ExpT(zs, e.k, mx))
 AccRow2(e, acc, x, y, zs) == AccRow3(e, acc, x, y, zs, EZ(e, x), MaxT(zs, e.k))
